@@ -61,8 +61,15 @@ func c12corrupt(t *dsim.Tape, r *dsim.Rand, in []byte) ([]byte, string) {
 			}
 		}
 		if len(frames) > 0 {
-			if p := frames[t.Intn(len(frames))] + 4 + t.Intn(9); p < len(b) {
+			f := frames[t.Intn(len(frames))]
+			if p := f + 4 + t.Intn(9); p < len(b) {
 				pos = p
+			}
+			if f+4 < len(b) && t.Bool(0.5) {
+				// the frame header descriptor: its two top bits select the width of the declared content size
+				m := []byte{0x80, 0x40, 0xc0}[t.Intn(3)]
+				b[f+4] ^= m
+				return b, fmt.Sprintf("zstd frame at %d: header descriptor byte xor %#x", f, m)
 			}
 		}
 	}
